@@ -293,7 +293,13 @@ def run_rtx(cx, laws=("roundtrip", "independent")):
     w = [N("rtx1", "top", "cont", kids=[N("rtx1", "s", "leaf", b"v", meta=[("hint", b"h"), ("tag", b"t")])])]
     lines.append("%d rt rt json %s" % (len(lines), hexs(json.dumps(to_json(w)).encode())))
     meta[len(lines) - 1] = ("f49", "json", None, to_xml(w), json.dumps(to_json(w)).encode())
-    ri = cx.run_impl(HARNESS, lines, component="rtx", timeout=1200)
+    # one ctx line serves all: replicate it per chunk so that the stream can be dealt to several processes
+    head, body = lines[0], lines[1:]
+    chunked = []
+    for i in range(0, len(body), 400):
+        chunked.append(head if i == 0 else "c%d rt ctx %s" % (i, head.split(" ", 3)[3]))
+        chunked += body[i:i + 400]
+    ri = rtcomp.run_batched(cx, chunked, "rtx", per_batch=1)
     xmlitems = []
     if ri.get("0", ["err"])[0] != "ok":
         cx.fail("rtx", "fixed schema rejected", {"reply": ri.get("0")})
